@@ -125,7 +125,7 @@ pub fn run(ctx: &Ctx) -> Report {
     rep.counters.add("sqlstate_snapshot_drift", drift);
 
     // ---- wire-level: every kind x reporting site
-    let sites = 12u64;
+    let sites = 14u64;
     let n = if ctx.miri { 4 } else { kinds.len() as u64 * sites };
     let kinds_ref = &kinds;
     let r = par_cases(ctx, "C13", "wire", n, |rng, i, rep| {
@@ -189,6 +189,18 @@ pub fn run(ctx: &Ctx) -> Report {
                 cmds.push(if bin { Cmd::execute(1, &[], false) } else { Cmd::query(b"q") });
                 scripts.push(q(vec![QOp::Start(0), row(1), QOp::Col(Cell::val(V::I32(2))), QOp::FinishErr(code, msg.clone())]));
             }
+            12 | 13 => {
+                let bin = site == 13;
+                site_name = if bin { "finish_error on a zero-column resultset with 2 rows (binary)" } else { "finish_error on a zero-column resultset (text)" };
+                cmds.push(if bin { Cmd::execute(1, &[], false) } else { Cmd::query(b"q") });
+                let mut ops = vec![QOp::Start(1)];
+                if bin {
+                    ops.push(QOp::EndRow);
+                    ops.push(QOp::Row(vec![], RowForm::Owned));
+                }
+                ops.push(QOp::FinishErr(code, msg.clone()));
+                scripts.push(Script::Q(QProg { colsets: vec![cols.clone(), vec![]], ops, on_err: OnErr::Drop }));
+            }
             _ => {
                 site_name = "init error via USE";
                 cmds.push(Cmd::query(b"USE db"));
@@ -196,7 +208,8 @@ pub fn run(ctx: &Ctx) -> Report {
             }
         }
         cmds.push(Cmd::ping());
-        let case = Case::new(cmds, scripts);
+        let mut case = Case::new(cmds, scripts);
+        vary_transport(rng, &mut case);
         let obs = run_case(&case);
         rep.evaluations += 1;
         rep.counters.class(format!("{} @ {}", name, site_name));
@@ -229,6 +242,15 @@ pub fn run(ctx: &Ctx) -> Report {
             Resp::Simple(Part::Err(e)) => Some(e.clone()),
             _ => None,
         };
+        // the error is the statement's reply, not something behind a success: the response has exactly
+        // the parts the program denotes (one, except for the chained site)
+        if let Resp::Parts(parts) = &dec.resps[3] {
+            let want_parts = if site == 6 { 3 } else { 1 };
+            if parts.len() != want_parts {
+                rep.violations.push(viol("C13", format!("C13 err-not-alone @ {}", site_name), format!("the response has {} parts, the program denotes {}: {:?}", parts.len(), want_parts, parts.iter().map(|p| match p { Part::Ok(_) => "OK", Part::Err(_) => "ERR", Part::Rows { .. } => "resultset" }).collect::<Vec<_>>()), d()));
+                return;
+            }
+        }
         let Some(e) = errp else {
             rep.violations.push(viol("C13", format!("C13 no-err-packet @ {}", site_name), format!("no ERR packet in the response: {:?}", dec.resps[3]).chars().take(300).collect(), d()));
             return;
